@@ -63,7 +63,7 @@ YT_ROUTES = {".", "..", "watch", "embed", "v", "video", "shorts", "channel", "us
 
 
 import re as _re
-_SAFE = _re.compile(r"^[A-Za-z0-9._~@-]*$")
+_SAFE = _re.compile(r"^(?!\.{1,2}$)[A-Za-z0-9._~@-]*$")   # URL-safe text that is not a dot segment either ('.' / '..' would resolve away)
 
 
 def _eq(a, b):
@@ -98,8 +98,8 @@ def eval_facebook(case, out):
         fields = [getattr(rec, s) for s in rec.__slots__ if s in ("handle", "parent_handle", "group_handle")]
         route_word = any(f in FB_ROUTES or (f or "").endswith(".php") for f in fields if f)
         unsafe = any(isinstance(getattr(rec, s), str) and not _SAFE.match(getattr(rec, s)) for s in rec.__slots__)
-        relname = "C19/facebook/roundtrip/route-word-handle/%s" % type(rec).__name__ if route_word else (
-            "C19/facebook/roundtrip/unsafe-chars" if unsafe else "C19/facebook/roundtrip/%s" % type(rec).__name__)
+        relname = "C19/facebook/roundtrip/unsafe-chars" if unsafe else (
+            "C19/facebook/roundtrip/route-word-handle/%s" % type(rec).__name__ if route_word else "C19/facebook/roundtrip/%s" % type(rec).__name__)
         out.append((relname, "parse_facebook_url(%r)=%r; its .url %r re-parses to %r" % (url, rec, curl, again)))
     return True
 
@@ -258,9 +258,18 @@ def _unparseable(case):
             cands += [v, "https://" + v, "http://" + v]
     for m in _re.finditer(r"(?:ampproject\.org/[cv]/(?:s/)?|marfeel(?:cache)?\.com/(?:amp/)?)(.+)$", u, _re.I):
         cands.append("https://" + m.group(1))
+    # what the library's own redirection inference makes of the input (relative targets are joined to it)
+    try:
+        from ural import infer_redirection
+        for x in (u, "http://" + u):
+            for rec in (True, False):
+                cands.append(infer_redirection(x, recursive=rec))
+    except Exception:
+        pass
     for cand in cands:
         try:
             urlsplit(cand)
+            urlsplit("http://" + cand)
         except ValueError:
             return True
     return False
@@ -273,7 +282,9 @@ SPEC = {
     "facebook": dict(
         hosts=["https://www.facebook.com", "facebook.com", "http://m.facebook.com", "https://fr-fr.facebook.com", "https://fb.me"],
         full=["watch", "videos", "photos", "photo.php", "photo", "posts", "permalink", "permalink.php", "story.php", "groups", "profile.php",
-              "people", "l.php", "a.123", "pcb.456", "123456789", "1234567", "12345678abc", "zuck", "Some.Page-1", "x.php", ""],
+              "people", "l.php", "a.123", "pcb.456", "123456789", "1234567", "12345678abc", "zuck", "Some.Page-1", "x.php", "",
+              # handles that merely begin / end with a route word
+              "peoplemag", "watchparty", "videosdaily", "myposts", "groupsfan", "photosof"],
         reduced=["videos", "photos", "posts", "permalink", "groups", "people", "123456789", "1234567", "zuck", "a.123"],
         queries=["", "v=123", "fbid=10&set=g.1", "fbid=10&set=a.2", "fbid=10&set=a.2&set=g.1", "fbid=10", "story_fbid=5&id=6", "id=6", "story_fbid=5",
                  "u=http%3A%2F%2Fx.com", "set=a.2", "v=", "id=", "fbid=&set=", "x=1&amp;id=7",
